@@ -62,6 +62,22 @@ Theorem C18_escape_lossy :
 Proof. intros k. apply replace_not_inv. discriminate. Qed.
 Print Assumptions C18_escape_lossy.
 
+(* the GROUP STRUCTURE of a tree survives whatever its dtypes are: every group - also one that holds no data variable
+   (coordinates only, attributes only, nothing) - comes back under its own path with every entry (variable /
+   coordinate name + dims in order, attribute), shape and value it had; `tree_trip` is what from_dict receives *)
+Theorem C18_tree_structure_kept :
+  forall m, keys_nohash m = true -> paths_closed m = true ->
+  keyed_skeleton (tree_trip slash hash m) = keyed_skeleton m.
+Proof. exact (tree_trip_skeleton slash hash). Qed.
+Print Assumptions C18_tree_structure_kept.
+
+Theorem C18_tree_trip_is_the_data_route :
+  forall m, m <> [] ->
+  dec src_tables FData (Some (hash, slash)) (backend_conv (enc src_tables FData (Some (slash, hash)) (Some (PKeyed m)))) =
+  Some (PKeyed (tree_trip slash hash m)).
+Proof. exact (dec_enc_data_is_tree_trip src_tables). Qed.
+Print Assumptions C18_tree_trip_is_the_data_route.
+
 (* ------------------------------------------------------------------ refutations (witnesses) *)
 Definition an_arr : arr := mk_arr "float64" [1%Z; 2%Z] [4607182418800017408%Z; 0%Z].
 Definition no_props : pfield -> items := fun _ => [].
@@ -75,6 +91,13 @@ Definition ccd_with_hash_group : detector :=
 (* a CCD whose cluster table has one row labelled 1 (cluster 0 was removed) *)
 Definition ccd_with_relabelled_cluster : detector :=
   mk_det CCD no_props (cont_of [(FChargeFrame, PFrame [1%Z] [("number", mk_arr "float64" [1%Z] [4617315517961601024%Z])])]).
+
+(* a CCD whose processed data holds a uint8 variable (the dtype is not stored: it reloads as int64) *)
+Definition ccd_with_uint8_variable : detector :=
+  mk_det CCD no_props (cont_of [(FData, PKeyed [("/", []); ("/a", [("var:v|k", mk_arr "uint8" [2%Z] [1%Z; 2%Z])])])]).
+(* a CCD whose processed data holds a variable of shape (0, 2) (the shape is not stored: the reload raises) *)
+Definition ccd_with_empty_2d_variable : detector :=
+  mk_det CCD no_props (cont_of [(FData, PKeyed [("/", []); ("/a", [("var:v|z,k", mk_arr "float64" [0%Z; 2%Z] [])])])]).
 
 Theorem C18_roundtrip_refuted_mkid_phase : ~ C18_roundtrip_full.
 Proof.
@@ -95,6 +118,25 @@ Proof.
     specialize (Q FData (or_introl eq_refl)). vm_compute in Q. discriminate Q.
 Qed.
 Print Assumptions C18_roundtrip_refuted_hash_key.
+
+Theorem C18_roundtrip_refuted_dtype_not_stored :
+  ~ roundtrip_on via_dict wf_shape src_tables CCD [FData].
+Proof.
+  intros H. destruct (H ccd_with_uint8_variable eq_refl) as [d' [E [_ [_ Q]]]].
+  - intros f. destruct f; vm_compute; intuition congruence.
+  - vm_compute in E. inversion E; subst d'; clear E.
+    specialize (Q FData (or_introl eq_refl)). vm_compute in Q. discriminate Q.
+Qed.
+Print Assumptions C18_roundtrip_refuted_dtype_not_stored.
+
+Theorem C18_roundtrip_refuted_shape_not_stored :
+  ~ roundtrip_on via_dict wf_shape src_tables CCD [].
+Proof.
+  intros H. destruct (H ccd_with_empty_2d_variable eq_refl) as [d' [E _]].
+  - intros f. destruct f; vm_compute; intuition congruence.
+  - vm_compute in E. discriminate E.
+Qed.
+Print Assumptions C18_roundtrip_refuted_shape_not_stored.
 
 Theorem C18_file_roundtrip_refuted_row_labels :
   ~ roundtrip_on via_file wf_shape src_tables CCD [FChargeFrame].
@@ -133,14 +175,29 @@ Definition rich_ccd : detector :=
               (FPixel, PArr an_arr); (FImage, PArr (mk_arr "uint16" [1%Z; 2%Z] [3%Z; 4%Z]));
               (FChargeArray, PArr an_arr);
               (FChargeFrame, PFrame [0%Z; 1%Z] [("number", mk_arr "float64" [2%Z] [1%Z; 2%Z])]);
-              (FScene, PKeyed [("/", []); ("/list/0", [("var:x|ref", an_arr)])]);
-              (FData, PKeyed [("/", []); ("/foo/bar", [("var:v|k", an_arr)])])]).
+              (FScene, PKeyed [("/", []); ("/list", []); ("/list/0", [("var:x|ref", an_arr)])]);
+              (FData, PKeyed [("/", []); ("/foo", [("attr:only=s:attributes", mk_arr "-" [] [])]); ("/foo/bar", [("var:v|k", an_arr)]);
+                              ("/foo/empty", [])])]).
 
 Example C18_rich_ccd_meets_hypotheses : forall f, strict_file CCD f (d_cont rich_ccd f).
 Proof. intros f. destruct f; vm_compute; intuition congruence. Qed.
 
 Example C18_rich_ccd_roundtrips :
   option_map (fun d' => det_eqb d' rich_ccd) (from_dict src_tables (via_file (to_dict src_tables rich_ccd))) = Some true.
+Proof. vm_compute. reflexivity. Qed.
+
+(* a tree with a coordinate-only parent, an attribute-only group and an empty leaf meets the hypotheses of
+   C18_tree_structure_kept, and the model returns it unchanged *)
+Definition a_tree : keyed :=
+  [("/", [("attr:title=s:t", mk_arr "-" [] [])]);
+   ("/stat", [("coord:time|time", mk_arr "float64" [2%Z] [1%Z; 2%Z])]);
+   ("/stat/pix", [("var:mean|time", mk_arr "float32" [2%Z] [3%Z; 4%Z])]);
+   ("/prov", [("attr:run=i:42", mk_arr "-" [] [])]);
+   ("/prov/empty", [])].
+Example C18_a_tree_meets_hypotheses : keys_nohash a_tree = true /\ paths_closed a_tree = true.
+Proof. vm_compute. split; reflexivity. Qed.
+Example C18_a_tree_groups_kept :
+  map fst (tree_trip slash hash a_tree) = ["/"; "/stat"; "/stat/pix"; "/prov"; "/prov/empty"].
 Proof. vm_compute. reflexivity. Qed.
 
 Example C18_mkid_phase_lost :
